@@ -224,3 +224,40 @@ def rule_closed_world(ctx, res):
                     if fl['vis'] == 'pub' and a['vis']['exported']:
                         pubf.append(a['path'] + '.' + fl['name'])
     res.check(not pubf, 'TYPE', 'crate', 'MainlineDht and DhtBuilder expose no public field', detail=str(pubf), key='pub-fields')
+
+
+def rule_find_node_identity(ctx, res):
+    """find_node_mut hands out the table entry with the same id AND address (NodeHandle equality, derived
+    over both fields), from the bucket of that id: a query can only mark the very node it claims to be"""
+    from .lib import Sym, strip_transparent, find_calls, field_chain, is_param, root_of, fmt
+    fn = 'table::RoutingTable::find_node_mut'
+    b = ctx.body(fn)
+    res.touch(b)
+    s = Sym(b)
+    s.run()
+    ok = False
+    for p in s.complete_paths():
+        r = p.ret
+        if r[0] == 'call' and r[1].endswith('Iterator::find') and find_calls(r, 'pingable_nodes_mut'):
+            cl = r[2][1]
+            if cl[0] == 'closure':
+                cb = ctx.body(cl[1])
+                cs = Sym(cb)
+                cs.run()
+                cps = cs.complete_paths()
+                if len(cps) == 1 and cps[0].ret[0] == 'call' and lib.cmp_kind_of_call(cps[0].ret[1]) == 'eq':
+                    x, y = strip_transparent(cps[0].ret[2][0]), strip_transparent(cps[0].ret[2][1])
+                    sides = {('handle' if (t[0] == 'call' and t[1] == 'node::Node::handle') else 'param' if '_ref__node' in str(t) and not field_chain(t)[1:] else 'other') for t in (x, y)}
+                    ok = sides == {'handle', 'param'}
+            idx = find_calls(r, 'bucket_index_for_node')
+            ok = ok and bool(idx) and field_chain(strip_transparent(idx[0][2][1])) == ['id'] and is_param(root_of(strip_transparent(idx[0][2][1])), 'node')
+    res.check(ok, 'TABLE', fn, 'find_node_mut yields the live entry whose whole handle (id and address) equals the requested one, looked up in the bucket of that id', site=b.span)
+    adt = ctx.f.adts.get('node::NodeHandle')
+    fields = [f['name'] for f in adt['variants'][0]['fields']] if adt else None
+    derived = {im['trait'] for im in ctx.f.impls if im['self_ty'] == 'node::NodeHandle' and im['derived']}
+    res.check(fields == ['id', 'addr'] and 'std::cmp::PartialEq' in derived, 'TYPE', 'node::NodeHandle', 'NodeHandle equality is derived over (id, addr)', detail='%s %s' % (fields, sorted(derived)))
+    nb = ctx.body('<node::Node as std::cmp::PartialEq>::eq')
+    ns = Sym(nb)
+    ns.run()
+    okn = all(p.ret[0] == 'call' and lib.cmp_kind_of_call(p.ret[1]) == 'eq' and {tuple(field_chain(strip_transparent(a))) for a in p.ret[2]} == {('handle',)} for p in ns.complete_paths()) and ns.complete_paths()
+    res.check(okn, 'TABLE', nb.path, 'two nodes are the same entry iff their handles (id and address) are equal')
